@@ -458,6 +458,8 @@ def extra(c):
     under weak fairness (liveness, TLC), and the TLAPS proof about the page layout."""
     files, n, _ = vlib.record("EXTRA", c.tier, c.seed, 2, name="DISPLAY")
     c.validate("Trace_Display", "Trace_Display.cfg", files, ["record", "DISPLAY"], procs=2, timeout=900)
+    files, n, _ = vlib.record("EXTRA", c.tier, c.seed, 2, name="API")
+    c.validate("Trace_Api", "Trace_Api.cfg", files, ["record", "API"], procs=2, timeout=900)
     r = vlib.run_mc("EXTRA", "MC_Live", "MC_Live_quick.cfg", "mc", workers=4, timeout=900, coverage=False)
     log("[M] MC_Live (every started controller call terminates, WF on exchanges): %d distinct states, ok=%s" % (r["distinct"], r["ok"]))
     if not r["ok"]:
